@@ -111,8 +111,12 @@ impl ISocketConnection for ZmtpSmartConnection {
         Err(ZmqError::ResourceLimitReached)
       }
       Err(fibre::TrySendError::Full(returned_msgs)) => {
-        let timeout_duration = self.sndtimeo.unwrap_or(Duration::from_secs(30));
-        match tokio::time::timeout(timeout_duration, self.egress_tx.send(returned_msgs)).await {
+        // SNDTIMEO -1 (None) waits until there is room, however long that takes.
+        let send_result = match self.sndtimeo {
+          None => Ok(self.egress_tx.send(returned_msgs).await),
+          Some(timeout_duration) => tokio::time::timeout(timeout_duration, self.egress_tx.send(returned_msgs)).await,
+        };
+        match send_result {
           Ok(Ok(())) => {
             self.signal_worker();
             Ok(())
@@ -136,8 +140,12 @@ impl ISocketConnection for ZmtpSmartConnection {
         Err((returned, ZmqError::ResourceLimitReached))
       }
       Err(fibre::TrySendError::Full(returned)) => {
-        let timeout_duration = self.sndtimeo.unwrap_or(Duration::from_secs(30));
-        match tokio::time::timeout(timeout_duration, self.egress_tx.send(returned)).await {
+        // SNDTIMEO -1 (None) waits until there is room, however long that takes.
+        let send_result = match self.sndtimeo {
+          None => Ok(self.egress_tx.send(returned).await),
+          Some(timeout_duration) => tokio::time::timeout(timeout_duration, self.egress_tx.send(returned)).await,
+        };
+        match send_result {
           Ok(Ok(())) => {
             self.signal_worker();
             Ok(())
